@@ -71,7 +71,16 @@ class BitInterp(Interp):
         return self.NOT_HANDLED
 
     def on_call(self, text, callee, args, kwargs, node, frame):
-        if text in ('bitstring.Bits', 'bitstring.BitStream', 'bitstring.BitArray'):
+        # a bitstring constructor, however it is reached (`bitstring.Bits(...)`, an alias kept on the object, a module-level alias)
+        from sa.patheval import UnknownMethod
+        ctor = text.split('.')[-1] if text.startswith('bitstring.') else None
+        if ctor is None and isinstance(callee, UnknownMethod) and isinstance(callee.recv, ModRef) and callee.recv.name == 'bitstring':
+            ctor = callee.name
+        if ctor in ('Bits', 'BitStream', 'BitArray', 'ConstBitStream'):
+            if getattr(self, 'constructing', None) is not None and ctor in ('BitStream', 'ConstBitStream', 'BitArray') and not kwargs.get('uint') and not kwargs.get('bytes') == b'':
+                # the stream the reader / writer object is built around
+                if not (args or kwargs) or 'bytes' in kwargs or args:
+                    return self.constructing
             return Obj('Bits', dict(kwargs, _args=list(args)))
         return self.NOT_HANDLED
 
@@ -83,7 +92,30 @@ class BitInterp(Interp):
 
 
 def new_obj(interp, cls, script=None):
-    return Obj(cls, {'bit_stream': Stream(interp, script), 'bitstring_Error': Top('bitstring.Error')})
+    """The reader / writer object as its constructor leaves it: cls.__init__ folded with the stream model standing for the bitstring
+    stream it creates (so that whatever else the constructor keeps on the object - aliases of bitstring classes, say - is there)."""
+    stream = Stream(interp, script)
+    o = Obj(cls, {'bit_stream': stream, 'bitstring_Error': Top('bitstring.Error')})
+    init = interp.repo.method(cls, '__init__', required=False)
+    if init is None:
+        return o
+    it = BitInterp(interp.repo, cls)
+    it.constructing = stream
+    try:
+        res = it.run_function(init, lambda: dict([('self', Obj(cls, {}))] + [(p, Sym('INPUT')) for p in init.params[1:]]), self_class=cls)
+    except AnalysisError:
+        return o
+    oks = [r for r in res if r.ok]
+    if len(oks) != 1:
+        return o
+    built = oks[0].locals['self']
+    for k, v in built.fields.items():
+        if k not in o.fields:
+            o.fields[k] = v
+        elif v is stream:
+            o.fields[k] = stream
+    # (an attribute that holds the stream under another name)
+    return o
 
 
 def one_bit(p):
